@@ -8,6 +8,7 @@ Line protocol of the C15 model (R = Rat).  Arrays: `s:<rat>` (0-d), `v:<vec>` (1
 `none` (the `cov` getter raises).
 
   map    <A> <rangeDim> <domainDim> <ce> <cx> <x0> <b>  -> `<array>` | `err:<Class>`     (BayesianProblem.MAP, direct branch)
+  mapx0  <disp 0|1> <user x0 | none> <A> <rangeDim> <domainDim> <ce> <cx> <prior mean> <b> -> as `map`  (MAP(disp, x0), direct route)
   centre <A> <rangeDim> <domainDim> <ce> <cx> <x0> <b>  -> `<array>` | `err:<Class>`     (_sampleMapCholesky up to the factorisation)
   ref    <A> <We> <Wx> <x0> <b>                         -> `mean=<vec> cov=<mat>` | `err` (exact posterior mean/covariance, certified)
   getmatrix <mb|fn> <A> <E> <F>                         -> `m:<mat>`                      (LinearModel.get_matrix)
@@ -81,6 +82,11 @@ def step : List String → String
     match parseArr a, rd.toNat?, dd.toNat?, parseCov ce, parseCov cx, parseArr x0, parseArr b with
     | some A, some rd, some dd, some ce, some cx, some x0, some b => fmtRes (mapDirect slvQ A rd dd ce cx x0 b)
     | _, _, _, _, _, _, _ => "bad-op"
+  | ["mapx0", disp, ux, a, rd, dd, ce, cx, pm, b] =>
+    match parseBool disp, parseCov ux, parseArr a, rd.toNat?, dd.toNat?, parseCov ce, parseCov cx, parseArr pm, parseArr b with
+    | some disp, some ux, some A, some rd, some dd, some ce, some cx, some pm, some b =>
+      fmtRes (mapMethod slvQ disp ux A rd dd ce cx pm b)
+    | _, _, _, _, _, _, _, _, _ => "bad-op"
   | ["centre", a, rd, dd, ce, cx, x0, b] =>
     match parseArr a, rd.toNat?, dd.toNat?, parseCov ce, parseCov cx, parseArr x0, parseArr b with
     | some A, some rd, some dd, some ce, some cx, some x0, some b => fmtRes (sampleCentre slvQ A rd dd ce cx x0 b)
